@@ -55,7 +55,7 @@ def plan(tier, seed):
         shards.append({"part": "scan", "lo": lo, "hi": lo + step, "n": n_entries, "tuple": 2,
                        "bound": f"trees<={n_entries} entries"})
     shards.append({"part": "feature", "tuple": 2, "bound": "feature trees"})
-    return {"shards": shards, "require_nonzero": ["convert:match", "convert:nomatch", "scan:partial", "scan:none", "regex", "glob", "module_path-below-root", "externals-included"]}
+    return {"shards": shards, "require_nonzero": ["convert:match", "convert:nomatch", "scan:partial", "scan:none", "regex", "glob", "module_path-below-root", "externals-included", "empty-exclusion-tuples"]}
 
 
 # ------------------------------------------------------------------------- (a) conversion
@@ -199,6 +199,15 @@ def check_tree(base, entries, tuple_size, res, only=None):
     for mp_rel in mps:
         mp = os.path.join(base, mp_rel)
         un = observed(scan(root, mp, exclusions=("nomatch",)))
+        # no exclusion at all, asked for with empty tuples: the same architecture as with a pattern that matches nothing
+        for empty in ({"exclusions": (), "regex_exclusions": ()}, {"exclusions": None, "regex_exclusions": ()}):
+            oe = call(lambda: observed(scan(root, mp, **empty)))
+            if res is not None:
+                res.transitions += 1
+                res.stats["empty-exclusion-tuples"] += 1
+            if oe[0] != "OK" or oe[1] != un:
+                viol.append(("empty-exclusion-tuple-changes-the-architecture", ["empty", [repr(empty["exclusions"])]] + ([mp_rel] if mp_rel != "top" else []),
+                             _obs(("OK", un)), _obs(oe)))
         for kind, pats in patterns_for(base, entries, tuple_size if mp_rel == "top" else 1):
             case_key = [kind, list(pats)] + ([mp_rel] if mp_rel != "top" else [])
             if only is not None and only != case_key:
